@@ -287,7 +287,7 @@ fn pic_digest(p: Option<&DecodedPicture>, full: bool) -> String {
                 format!("{:016x} {:016x} {:016x}", fnv(y), fnv(b), fnv(r))
             };
             format!(
-                "[tr={} type={} q={} opts={} {}x{} n={},{},{} spr={} {}]",
+                "[tr={} type={} q={} opts={} {}x{} n={},{},{} spr={} lrow={} {}]",
                 h.temporal_reference,
                 type_str(&h.picture_type),
                 h.quantizer,
@@ -298,6 +298,7 @@ fn pic_digest(p: Option<&DecodedPicture>, full: bool) -> String {
                 b.len(),
                 r.len(),
                 p.chroma_samples_per_row(),
+                p.luma_samples_per_row(),
                 planes
             )
         }
